@@ -1,5 +1,6 @@
 (* C14 — typed views select exactly the elements of their kind, in order, each once. *)
 From Anytype Require Import Base FloatBits Value Views.
+From Anytype Require Import Heap HeapExt HeapExtProofs.
 From Coq Require Import Permutation.
 Local Open Scope Z_scope.
 
@@ -53,6 +54,26 @@ Example C14_nonvacuous :
   slice_k KInt [VInt 1; VStr (B"x"); VInt 2; VNil; VInt 1] = [VInt 1; VInt 2; VInt 1] /\ all_k KInt [] = true.
 Proof. vm_compute. split; reflexivity. Qed.
 
+
+(* heap level (HeapExt.v): the typed slices, the typed ForEach call logs, the All family of a list that lives in a heap of
+   containers with identity are the pure views above applied to its element sequence; Filter hands out exactly the selected
+   elements in order; Map with the identity callback hands out the selected elements themselves (containers by reference) *)
+Theorem C14_heap_typed_slice : forall k l, map val_of_hscalar (filter_loop (sel_kind k) l) = slice_k k (map val_of_hscalar l).
+Proof. exact slicek_bridge. Qed.
+Theorem C14_heap_kind : forall x, kind_of (val_of_hscalar x) = hkind x.
+Proof. exact hkind_kind_of. Qed.
+Theorem C14_heap_all : forall k l, forallb (sel_kind k) l = all_k k (map val_of_hscalar l).
+Proof. exact allk_bridge. Qed.
+Theorem C14_heap_all_numeric : forall l, forallb (fun x => sel_kind KInt x || sel_kind KFloat x) l = all_numeric (map val_of_hscalar l).
+Proof. exact allnumeric_bridge. Qed.
+Theorem C14_heap_filter : forall sel l, filter_loop sel l = filter sel l.
+Proof. exact filter_loop_spec. Qed.
+Theorem C14_heap_map_identity : forall sel tagf l h i acc, map_loop sel MId tagf h l i acc = (h, acc ++ filter sel l).
+Proof. exact map_loop_MId. Qed.
+Theorem C14_heap_map_once_each : forall sel f tagf l h i acc h' res,
+  map_loop sel f tagf h l i acc = (h', res) -> length res = (length acc + length (filter sel l))%nat.
+Proof. exact map_loop_length. Qed.
+
 Print Assumptions C14_slice.
 Print Assumptions C14_foreach_log.
 Print Assumptions C14_positions.
@@ -71,3 +92,10 @@ Print Assumptions C14_obj_foreach_k.
 Print Assumptions C14_obj_order_irrelevant.
 Print Assumptions C14_obj_map.
 Print Assumptions C14_obj_map_k.
+Print Assumptions C14_heap_typed_slice.
+Print Assumptions C14_heap_kind.
+Print Assumptions C14_heap_all.
+Print Assumptions C14_heap_all_numeric.
+Print Assumptions C14_heap_filter.
+Print Assumptions C14_heap_map_identity.
+Print Assumptions C14_heap_map_once_each.
